@@ -138,7 +138,54 @@ class C14(Prop):
 
     # -------------------------------------------------------------------------------------------
     def judge(self, case):
+        if case['type'] == 'refused':
+            return self.judge_refused(case)
         return self.judge_parse(case) if case['type'] == 'parse' else self.judge_undeclared(case)
+
+    def judge_refused(self, case):
+        """A declaration that rtamt refuses leaves no trace: after `declare_var('T')`, a refused
+        `declare_const('T', ..)` (or a refused in-text `const .. T`), the name T is still not a constant, so a text
+        that uses it as an interval bound is not derivable ("bound constants declared") and must be rejected."""
+        v = Verdict()
+        v.nontrivial = True
+        api, how, op, pos = case['api'], case['how'], case['op'], case['pos']
+        v.info['refused-declaration:%s' % how] = 1
+        err, old = io.StringIO(), sys.stderr
+        sys.stderr = err
+        try:
+            s = drive.build_spec(api, {'text': 'out = (x >= 1)', 'vars': ['x', 'T']})
+            refused = False
+            try:
+                if how == 'api':
+                    s.declare_const('T', case['ctype'], case['cval'])
+                else:
+                    s.spec = 'const %s T = %s;\nout = (x >= 1)' % (case['ctype'], case['cval'])
+                    s.parse()
+            except Exception as e:
+                refused = True
+                if not drive.is_rtamt_exc(e):
+                    v.bad('refused-declaration-raises:' + type(e).__name__, 'declaring the constant T over the variable T '
+                          '(%s) raised %s: %s' % (how, type(e).__name__, e))
+                    return v
+            if not refused:
+                v.skip = 'the second declaration of T was accepted'
+                return v
+            ivl = '[0:T]' if pos == 'end' else '[T:5]'
+            body = '(x >= 1) %s%s (x <= 3)' % (op, ivl) if op in ('since', 'until') else '%s%s (x >= 1)' % (op, ivl)
+            s.spec = 'out = ' + body
+            try:
+                s.parse()
+            except Exception as e:
+                if not drive.is_rtamt_exc(e):
+                    v.bad('parse-raises:' + type(e).__name__, 'parse() of %r after a refused declaration raised %s' % (
+                        body, type(e).__name__))
+                return v
+            v.bad('accepted-undeclared-bound', 'parse() accepted %r on a %s object although T is a variable: the refused '
+                  'constant declaration (%s, %s %s) left the name behind as a constant' % (
+                      body, api, how, case['ctype'], case['cval']))
+        finally:
+            sys.stderr = old
+        return v
 
     def judge_parse(self, case):
         v = Verdict()
@@ -282,6 +329,14 @@ class C14(Prop):
                 self.check(ctx, {'type': 'parse', 'text': vt, 'declared': decl, 'mutated': vt != t})
             done += 1
         ctx.count('texts-with-all-truncations-deletions-duplications', done)
+        if ctx.shard == 0:
+            for api in ('dt', 'ct', 'dt_off', 'ct_off', 'dt_on', 'ct_on'):
+                for how in ('api', 'text'):
+                    for op in ('always', 'once', 'until', 'historically'):
+                        for pos in ('end', 'begin'):
+                            ctype, cval = rng.choice([('int', '3'), ('float', '2.5'), ('float', '4')])
+                            self.check(ctx, {'type': 'refused', 'api': api, 'how': how, 'op': op, 'pos': pos,
+                                             'ctype': ctype, 'cval': cval})
 
 
 PROP = C14()
